@@ -272,4 +272,71 @@ theorem digitsVal_nondigit (l r : List Char) (c : Char) (hc : c.isDigit = false)
     cases List.foldl dstep (some 0) l <;> simp [dstep, hc]
   rw [this, hnone]
 
+
+theorem cmpScaled_frac_cmp (A m k j : Nat) :
+    cmpScaled A (-(k : Int) - (j : Int)) (m * 5 ^ k) (-(k : Int)) = compare A (m * 2 ^ j) := by
+  unfold cmpScaled
+  have h1 : (-(k : Int) - (j : Int)).toNat = 0 := by omega
+  have h2 : (-(-(k : Int) - (j : Int))).toNat = k + j := by omega
+  have h3 : (-(k : Int)).toNat = 0 := by omega
+  have h4 : (-(-(k : Int))).toNat = k := by omega
+  simp only [h1, h2, h3, h4, Nat.pow_zero, Nat.mul_one]
+  have hp : m * 5 ^ k * 2 ^ (k + j) = m * 2 ^ j * 10 ^ k := by
+    have : (10 : Nat) ^ k = 5 ^ k * 2 ^ k := by rw [← Nat.mul_pow]
+    rw [this, Nat.pow_add]
+    simp only [Nat.mul_assoc, Nat.mul_comm, Nat.mul_left_comm]
+  rw [hp]
+  have hP : 0 < 10 ^ k := Nat.pow_pos (by decide)
+  rcases Nat.lt_trichotomy A (m * 2 ^ j) with hl | he | hg
+  · rw [Nat.compare_eq_lt.mpr hl, Nat.compare_eq_lt]; exact Nat.mul_lt_mul_of_pos_right hl hP
+  · rw [he]; simp
+  · rw [Nat.compare_eq_gt.mpr hg, Nat.compare_eq_gt]; exact Nat.mul_lt_mul_of_pos_right hg hP
+
+
+/-- NO FALSE REJECTION below 2^52: every positive finite double with a negative binary exponent
+    (all subnormals, all normals `< 2^52`) is denoted by the exact decimal expansion of its
+    binary value `M·2^(-k) = M·5^k·10^(-k)` -/
+theorem decIsKey_exact_frac (n k : Nat) (hn : 0 < n) (he : n / 2 ^ 52 < 1075)
+    (hk : (if n / 2 ^ 52 = 0 then 1074 else 1075 - n / 2 ^ 52) = k) :
+    decIsKey ⟨false, (if n / 2 ^ 52 = 0 then n % 2 ^ 52 else 2 ^ 52 + n % 2 ^ 52) * 5 ^ k, -(k : Int)⟩
+      (n : Int) = true := by
+  rw [decIsKey_pos _ n hn (by omega)]
+  have hE1 : ((if n / 2 ^ 52 = 0 then (-1074 : Int) else ((n / 2 ^ 52 : Nat) : Int) - 1075) - 1)
+      = -(k : Int) - ((1 : Nat) : Int) := by split at hk <;> simp_all <;> omega
+  have hE2 : ((if n / 2 ^ 52 = 0 then (-1074 : Int) else ((n / 2 ^ 52 : Nat) : Int) - 1075) - 2)
+      = -(k : Int) - ((2 : Nat) : Int) := by split at hk <;> simp_all <;> omega
+  simp only [hE1, hE2, cmpScaled_frac_cmp]
+  generalize hM : (if n / 2 ^ 52 = 0 then n % 2 ^ 52 else 2 ^ 52 + n % 2 ^ 52) = M
+  have hMpos : 0 < M := by rw [← hM]; split <;> omega
+  have hup : compare (2 * M + 1) (M * 2 ^ 1) = .gt := by rw [Nat.compare_eq_gt]; omega
+  have hlo2 : compare (2 * M - 1) (M * 2 ^ 1) = .lt := by rw [Nat.compare_eq_lt]; omega
+  have hlo4 : compare (4 * M - 1) (M * 2 ^ 2) = .lt := by rw [Nat.compare_eq_lt]; omega
+  rw [hup]
+  split <;> simp [hlo2, hlo4]
+
+
+/-- the oracle is satisfiable at every finite key: some literal (the exact value) is accepted, so a
+    correct encoder can always pass it -/
+theorem decIsKey_satisfiable (k : Int) (hk : k.natAbs / 2 ^ 52 < 2047) : ∃ d : Dec, decIsKey d k = true := by
+  have pos : ∀ n : Nat, 0 < n → n / 2 ^ 52 < 2047 → ∃ d : Dec, decIsKey d (n : Int) = true ∧ d.neg = false := by
+    intro n hn hf
+    by_cases he : n / 2 ^ 52 < 1075
+    · exact ⟨_, decIsKey_exact_frac n _ hn he rfl, rfl⟩
+    · exact ⟨_, decIsKey_exact_int n (n / 2 ^ 52 - 1075) (by omega) hf, rfl⟩
+  rcases Int.lt_trichotomy k 0 with hneg | hz | hpos
+  · obtain ⟨n, hn⟩ : ∃ n : Nat, k = -(n : Int) := ⟨(-k).toNat, by omega⟩
+    subst hn
+    have hn0 : 0 < n := by omega
+    obtain ⟨d, hd, hs⟩ := pos n hn0 (by simpa using hk)
+    refine ⟨{ d with neg := true }, ?_⟩
+    rw [decIsKey_neg _ n hn0]
+    have : ({ { d with neg := true } with neg := !({ d with neg := true } : Dec).neg } : Dec) = d := by
+      cases d; simp_all
+    rw [this]; exact hd
+  · subst hz; exact ⟨⟨false, 0, 0⟩, by decide⟩
+  · obtain ⟨n, hn⟩ : ∃ n : Nat, k = (n : Int) := ⟨k.toNat, by omega⟩
+    subst hn
+    obtain ⟨d, hd, _⟩ := pos n (by omega) (by simpa using hk)
+    exact ⟨d, hd⟩
+
 end Sod.Codec
